@@ -55,6 +55,7 @@ type KOp struct {
 	B      uint32 `json:"b,omitempty"`      // second argument (flags/pid for Send, sender pid / mode for Receive, fill for FromWire)
 	C      uint32 `json:"c,omitempty"`      // third argument (type for Send, variant for Receive)
 	D      int64  `json:"d,omitempty"`      // sleep ns; caller-supplied port id for Send
+	E      uint32 `json:"e,omitempty"`      // Send: shape of the caller's payload slice (bits 0-2 spare capacity class, bit 3 sub-slice of a larger buffer, bit 4 send the previous slice of this length again)
 }
 
 // KPlan is a plan of the client engine (E3).
@@ -97,9 +98,12 @@ func (p *KPlan) Valid() bool {
 			if f.Spoof != 0 && !(p.Scenario == 8 && p.Transport == 1) {
 				return false // a forged reply ahead of the real one needs the real NetlinkClient's sender check
 			}
+			if f.DataFirst && p.Scenario != 8 {
+				return false // a reply ahead of its ACK is judged (relaxed) by the C08 and C16 scenarios only
+			}
 		}
 	}
-	if len(p.RecvHard) > 0 && p.Scenario != 8 {
+	if len(p.RecvHard) > 0 && p.Scenario != 8 && p.Scenario != 16 {
 		return false
 	}
 	for _, n := range p.RecvHard {
@@ -121,7 +125,7 @@ func (p *KPlan) Valid() bool {
 	}
 	delay := false
 	for _, f := range p.Faults {
-		if f.Errno < 0 || f.Errno > 133 || f.UnsolBefore < 0 || f.UnsolAfter < 0 || f.UnsolMid < 0 || f.UnsolBefore > 6 || f.UnsolAfter > 6 || f.UnsolMid > 6 {
+		if f.Errno < 0 || f.Errno > 4095 || f.UnsolBefore < 0 || f.UnsolAfter < 0 || f.UnsolMid < 0 || f.UnsolBefore > 6 || f.UnsolAfter > 6 || f.UnsolMid > 6 {
 			return false
 		}
 		if f.DelayNs < 0 || f.DelayNs > 450e6 || f.DataTrunc < 0 || f.DataPad < 0 || f.AckShort < 0 || f.Spoof < 0 || f.Spoof > 2 {
@@ -193,6 +197,10 @@ func genFaults(r *core.Rng, n int, p *KPlan, errnoPct, unsolPct, stalePct, delay
 		var f kern.ReqFault
 		if r.Chance(errnoPct, 100) {
 			f.Errno = core.Pick(r, 1, 2, 4, 11, 12, 13, 16, 17, 22, 28, 95, 105, 133, r.Range(1, 133))
+			if r.Chance(1, 12) {
+				// the kernel's errno space ends at MAX_ERRNO (4095); kernel-internal codes above 255 do reach netlink ACKs
+				f.Errno = core.Pick(r, 255, 256, 257, 512, 516, 524, 768, 4095, r.Range(134, 4095))
+			}
 		}
 		if r.Chance(unsolPct, 100) {
 			f.UnsolBefore = r.Intn(4)
@@ -357,6 +365,16 @@ func GenKPlanC08(r *core.Rng) *KPlan {
 			}
 		}
 	}
+	if r.Chance(1, 10) {
+		// status replies that reach the socket ahead of their ACK (the kernel queues
+		// them from a thread of its own), with 0..2 audit records in between
+		for i := range p.Faults {
+			if r.Chance(1, 3) {
+				p.Faults[i].DataFirst = true
+				p.Faults[i].UnsolMid = r.Intn(3)
+			}
+		}
+	}
 	if p.Transport == 1 && r.Chance(1, 8) {
 		// a forged "success" ACK with the request's own sequence number, sent by
 		// another netlink socket (or from a non-netlink address), ahead of the
@@ -446,7 +464,22 @@ func GenKPlanC16(r *core.Rng) *KPlan {
 			f.UnsolBefore = r.Intn(3)
 			f.UnsolAfter = r.Intn(3)
 		}
+		if r.Chance(1, 8) {
+			// the status reply reaches the socket ahead of its ACK, with 0..2 audit records in between
+			f.DataFirst = true
+			f.UnsolMid = r.Intn(3)
+		}
 		p.Faults = append(p.Faults, f)
+	}
+	if r.Chance(1, 8) {
+		// a receive fails hard with ENOBUFS (the socket's queue overran) somewhere in the run
+		for k := r.Range(1, 3); k > 0; k-- {
+			p.RecvHard = append(p.RecvHard, r.Intn(3*n+4))
+		}
+	}
+	if r.Chance(1, 6) && len(p.Tasks) == 0 {
+		// transient receive failures (an empty poll between two datagrams)
+		genRecv(r, 6*n, p, core.Pick(r, 20, 50))
 	}
 	return p
 }
@@ -548,7 +581,12 @@ func GenKPlanC18(r *core.Rng) *KPlan {
 			pid = core.Pick(r, uint32(1), 99, 1<<32-1, r.U32())
 		}
 		typ := core.Pick(r, uint32(1000), 1001, 1011, 1013, 3, 0, 65535, uint32(r.Intn(1<<16)))
-		return KOp{K: kSendRaw, A: uint32(ln), B: flags, C: typ, D: int64(pid)}
+		shape := uint32(0)
+		if r.Chance(1, 2) {
+			// the caller's slice has spare capacity (built with append, cut out of a larger buffer) and may be sent again
+			shape = uint32(r.Intn(32))
+		}
+		return KOp{K: kSendRaw, A: uint32(ln), B: flags, C: typ, D: int64(pid), E: shape}
 	}
 	recvOp := func() KOp {
 		ln := core.Pick(r, r.Intn(65), r.Intn(65), 0, 15, 16, 17, 20, r.Intn(2000), 8986)
